@@ -580,7 +580,14 @@ class SymEx:
                             # with cm(...) as x, cm a @contextmanager generator of the package (read through above): x is what it yields
                             tg = self._resolve_dyn(item.context_expr, c)
                             if len(tg) == 1 and any(ast.unparse(d_.func if isinstance(d_, ast.Call) else d_).split('.')[-1] == 'contextmanager' for d_ in tg[0].node.decorator_list):
-                                ys = [e_ for e_ in y.events[len(c.events):] if e_.kind == 'yield']
+                                new_ = y.events[len(c.events):]
+                                if not any(e_.kind == 'enter' and e_.d.get('fn') == tg[0].qn for e_ in new_):
+                                    # not read through under this policy: the manager stays an opaque call, its body does not run here
+                                    if item.optional_vars is not None:
+                                        y = self.assign(item.optional_vars, v, y, s)
+                                    nxt.append(y)
+                                    continue
+                                ys = [e_ for e_ in new_ if e_.kind == 'yield']
                                 after = False
                                 for st_ in ast.walk(tg[0].node):
                                     if isinstance(st_, (ast.Try,)) and (st_.finalbody or st_.handlers):
@@ -1993,7 +2000,11 @@ class SymEx:
                     if len(r) != 1 or r[0][0].exc is not None or not _callable_value(r[0][1], self):
                         raise Undecided('decorator %s of %s does not evaluate to a function of the package' % (ast.unparse(d)[:40], callee.qn))
                     fake = ast.copy_location(ast.Call(func=d, args=[ast.Name(id='_raw_', ctx=ast.Load())], keywords=[]), callee.node)
-                    rr = self.call_value(fake, r[0][1], [val], [], State())
+                    self._force_inline = getattr(self, '_force_inline', 0) + 1       # applying a decorator is always read through, whatever its name
+                    try:
+                        rr = self.call_value(fake, r[0][1], [val], [], State())
+                    finally:
+                        self._force_inline -= 1
                 finally:
                     self.frames.pop()
                 rr = [(s_, v_) for s_, v_ in rr if s_.exc is None]
@@ -2447,7 +2458,7 @@ class SymEx:
             t = self.M.funcs[fv[1]]
             if t.cls is None or t.is_static:
                 bound = self.bind(t, args, kwargs, skip_self=False)
-                if not self.suppress and self.policy(fn, t, len(self.frames)) and not any(fr.qn == t.qn for fr in self.frames):
+                if not self.suppress and (self.policy(fn, t, len(self.frames)) or getattr(self, '_force_inline', 0)) and not any(fr.qn == t.qn for fr in self.frames):
                     return self.inline(t, bound, None, st, e)
                 res = ('call', ('fn', t.qn), tuple(args), tuple(sorted(kwargs, key=lambda kv: str(kv[0]))))
                 x = st.ev(Ev('call', callee=[t.qn], args=bound, site=site, fn=fn.qn, how='func', layer=1, result=res, node=e, recv=None))
